@@ -76,6 +76,10 @@ def run(tier):
         rows = [r for r in rows if tuple(r["c"]) in keep]
     P = pool["pool"]
     evals, nontrivial = judge(v, pool, rows, lambda row: [P[i - 1] for i in row["w"]], "c05")
+    from . import c05b
+    seq_evals = c05b.run_part(v, tier)
+    evals += seq_evals
+    nontrivial += seq_evals
     if v.audit_disagreements > 0.03 * max(1, evals):
         raise ToolError("model/bash disagreement rate too high: %d of %d" % (v.audit_disagreements, evals))
     return v.finish({
